@@ -1,5 +1,7 @@
 #!/bin/bash
 # usage: ./build.sh <cnn>   — builds bin/<cnn> from ./checks/<cnn> against /repo's working tree.
+# If checks/<cnn>/MAPRW exists it lists /repo packages whose map-range statements are rewritten
+# onto harness-owned iteration order (engine/maprw, engine/vmap), also passed with -overlay.
 # If checks/<cnn>/REWRITE exists it lists /repo package directories whose synchronisation is
 # rewritten onto the virtual runtime (engine/vrt) and passed to the build with -overlay.
 # VERIF_REPO=<dir> builds against another checkout (mutation testing in a scratch worktree);
@@ -23,6 +25,11 @@ fi
 if [ -f "checks/$lc/REWRITE" ]; then
   go build -o bin/rewrite ./engine/rewrite/cmd || exit 2
   bin/rewrite $(grep '^-' "checks/$lc/REWRITE") -out "scratch/$tag" $(grep -v '^[#-]' "checks/$lc/REWRITE" | sed "s|^/repo|$repo|") >/dev/null || exit 2
+  args+=(-overlay "scratch/$tag/overlay.json")
+fi
+if [ -f "checks/$lc/MAPRW" ]; then
+  go build -o bin/maprw ./engine/maprw/cmd || exit 2
+  bin/maprw -repo "$repo" -out "scratch/$tag" -sitesfile engine/vmap/sites.go $(grep -v '^#' "checks/$lc/MAPRW") >/dev/null || exit 2
   args+=(-overlay "scratch/$tag/overlay.json")
 fi
 go build "${args[@]}" -o "$out" "./checks/$lc"
